@@ -6,9 +6,11 @@ CONFIG = {
                 'srcs': ['harness/h_indexed.cc', '$REPO/src/io/input_split_base.cc', '$REPO/src/io/indexed_recordio_split.cc',
                          '$REPO/src/io/line_split.cc', '$REPO/src/io/recordio_split.cc', '$REPO/src/recordio.cc',
                          '$REPO/src/io.cc', '$REPO/src/io/local_filesys.cc', '$REPO/src/io/filesys.cc'],
-                # H1: 256-word chunk buffers (1 KB instead of 8 MB per constructed split / prefetch cell); every
-                # generated data file is smaller, so the default-size behaviour is what is exercised
-                'flags': ['-DDMLC_CORE_VERIF_BUFFER_WORDS=256'],
+                # H1: 3-word chunk buffers instead of 8 MB: smaller than any record image, so every Chunk::Load / Append
+                # of a pass has to grow (reallocate) its vector at least once and later passes reuse the grown one -
+                # both paths of the buffer management run under ASan; _GLIBCXX_SANITIZE_VECTOR makes ASan also see
+                # accesses between size() and capacity() of the chunk / index / permutation vectors
+                'flags': ['-DDMLC_CORE_VERIF_BUFFER_WORDS=3', '-D_GLIBCXX_SANITIZE_VECTOR'],
                 'args': ['--prop', 'C06']},
     'rule': 'cases = one indexed RecordIO file (N records written by the real RecordIOWriter over a magic-laden word '
             'alphabet with tails 0-3, index lines "id\\toffset" in random order) x operation histories on one object at a '
